@@ -44,6 +44,19 @@ Theorem served_is_held_or_in_flight : forall E ops k v,
   contains (run E ops (init E)) k = true \/ in_flight (run E ops (init E)) k = true.
 Proof. exact served_is_held_or_in_flight_lemma. Qed.
 
+(* The verified path has no size gate (the unverified put() refuses values of max_value_bytes or more;
+   put_verified never looks at the size, nor does the disk path of get): acceptance does not depend on
+   the value, and an indexed record of any length whose file holds its bytes is read back. *)
+Theorem put_verified_has_no_size_gate : forall E s k v v' t t',
+  klookup k (cache s) <> Some v -> klookup k (cache s) <> Some v' ->
+  fst (put_verified E s k v t) = fst (put_verified E s k v' t').
+Proof. exact put_verified_has_no_size_gate_lemma. Qed.
+
+Theorem disk_read_has_no_size_gate : forall E s k v, dec_enc E ->
+  klookup k (cache s) = None -> contains s k = true ->
+  flookup (fname k) (files s) = Some (file_bytes E k v) -> get E s k = Some v.
+Proof. exact disk_read_has_no_size_gate_lemma. Qed.
+
 (* file names determine keys: two keys never share a record file *)
 Theorem names_injective : forall a b, fname a = fname b -> a = b.
 Proof. exact fname_inj. Qed.
